@@ -42,7 +42,10 @@ def scan(output, needles) -> bool:
     return any(n in b for n in needles)
 
 
-def load(jwk: dict, origin: str, priv: bool, kid, extras: bool):
+STRAY = {"RSA": ["p", "q", "dp", "dq", "qi"], "EC": ["d"], "OKP": ["d"]}
+
+
+def load(jwk: dict, origin: str, priv: bool, kid, extras: bool, stray: bool = False):
     """build the initial joserfc key object as the abstract state says"""
     from joserfc.jwk import JWKRegistry
     from cryptography.hazmat.primitives import serialization as S
@@ -52,7 +55,16 @@ def load(jwk: dict, origin: str, priv: bool, kid, extras: bool):
     if extras:
         params.update(EXTRAS)
     src = dict(jwk) if (priv or jwk["kty"] == "oct") else R.public_jwk(jwk)
+    if stray:
+        sm = {m: jwk[m] for m in STRAY[jwk["kty"]]}
+        if origin == "jwk" and jwk["kty"] == "RSA":
+            src.update(sm)                      # CRT members without "d": imports as a public key
+        else:
+            params.update(sm)                   # private-named members through the parameters argument
     if origin == "jwk":
+        if stray and jwk["kty"] != "RSA":
+            sm = {m: params.pop(m) for m in STRAY[jwk["kty"]]}
+            return JWKRegistry.import_key({**src, **params}, parameters=sm)
         return JWKRegistry.import_key({**src, **params})
     if origin in ("pem", "der"):
         native = R.jwk_to_native(jwk, True)
@@ -101,7 +113,7 @@ def replay(case, kind: str, seed: int):
                 material = dict(material)
         else:
             material = K.get(kind, rnd.randrange(3))
-            key = load(material, h0["origin"], h0["priv"], kidv, h0["extras"])
+            key = load(material, h0["origin"], h0["priv"], kidv, h0["extras"], h0.get("stray", False))
     except Exception as e:  # noqa
         return [("C11", f"initial-load-raised:{type(e).__name__}", f"{kind} {h0} {str(e)[:80]}")]
     pub_expected = R.public_jwk(material) if kty != "oct" else material
@@ -119,7 +131,7 @@ def replay(case, kind: str, seed: int):
         core = {m: got_pub[m] for m in R.THUMB_MEMBERS[kty]}
         if core != {m: pub_expected[m] for m in R.THUMB_MEMBERS[kty]}:
             F.append(("C11", "public-material-differs", where))
-        if st["priv"] and kty != "oct":
+        if st["priv"] and kty != "oct" and k.is_private:
             gp = native_jwk(k, True)
             if any(gp[m] != material[m] for m in PRIVATE_MEMBERS[kty] if m in material):
                 F.append(("C11", "private-material-differs", where))
@@ -129,12 +141,14 @@ def replay(case, kind: str, seed: int):
         # exported JWK members follow RFC 7518/8037 (fixed-length EC coordinates, minimal RSA integers, unpadded base64url)
         try:
             d = k.as_dict()
-            conf = native_jwk(k, st["priv"])
+            conf = native_jwk(k, st["priv"] and k.is_private)
+            if st["priv"] and k.is_private and kty != "oct" and any(m not in d for m in PRIVATE_MEMBERS[kty]):
+                F.append(("C11", "private-members-missing-from-jwk-view", f"{where}: {sorted(set(PRIVATE_MEMBERS[kty]) - set(d))}"))
             for m, v in conf.items():
                 if d.get(m) != v:
                     F.append(("C11", "jwk-member-not-conformant", f"{where}: {m}={str(d.get(m))[:24]}... expected {v[:24]}... ({kind})"))
                     break
-            allowed = set(conf) | {"kid", "use", "alg", "key_ops", "x5t"}
+            allowed = set(conf) | {"kid", "use", "alg", "key_ops", "x5t"} | (set(STRAY.get(kty, [])) if st.get("stray") else set())
             if set(d) - allowed:
                 F.append(("C11", "jwk-unexpected-members", f"{where}: {sorted(set(d) - allowed)}"))
         except Exception as e:  # noqa
@@ -242,7 +256,12 @@ def run_chunk(args):
     items, seed = args
     out = []
     for idx, case, kind in items:
-        for prop, what, detail in replay(case, kind, seed):
+        try:
+            found = replay(case, kind, seed)
+        except Exception as e:  # noqa - the real object behaved in a way the projection cannot even read: that is an observation, not a crash
+            import traceback
+            found = [("C11", f"object-unreadable:{type(e).__name__}", traceback.format_exc()[-300:])]
+        for prop, what, detail in found:
             out.append((idx, kind, prop, what, detail))
     return out
 
@@ -251,7 +270,7 @@ def load_chains(ctx, thorough: bool, rnd: random.Random):
     rs = ctx.tlc_many([("Jwk", "Jwk_" + k, {"timeout": 900}) for k in ("oct", "RSA", "EC", "OKP")])
     if thorough:
         ctx.tlc_many([("Jwk", "Jwk_dev_" + d, {"timeout": 600, "expect_violation": True})
-                      for d in ("PublicExportLeaks", "PrivateOnPublicSilent", "KidOverwritten", "PemKeepsKid", "SetExportIgnoresFlag")])
+                      for d in ("PublicExportLeaks", "PrivateOnPublicSilent", "KidOverwritten", "PemKeepsKid", "SetExportIgnoresFlag", "PublicKeySkipsFilter")])
     items = []
     total = 0
     for r in rs:
